@@ -93,6 +93,16 @@ template <class G> G buildFromEnc(const json &e, unsigned order) {
 
 template <class G> json encOf(const G &g) { return Obj<G>(g).enc(); }
 
+// The input of a case is built with the class's own mutators.  If the object then does not show
+// the value the specification asked for, some mutator is defective - the subject of another
+// property - and the case says nothing about the function under test: it is skipped (noted).
+template <class G> bool inputAsSpecified(const G &g, const json &want, CaseResult &r) {
+    if (encOf(g) == want)
+        return true;
+    r.diagnostics.push_back("input graph could not be constructed as specified (case skipped)");
+    return false;
+}
+
 inline std::string diffNote(const json &exp, const json &act) {
     return "expected " + exp.dump() + " got " + act.dump();
 }
